@@ -903,3 +903,19 @@ Proof.
   { apply w_state_reach. simpl. apply e_init_reach. }
   split; [eapply etcd_exclusive; eauto|eapply etcd_holder_owns_key; eauto].
 Qed.
+
+(* the same sweeps over three registrants (8 operations), schedules of at most 4 operations *)
+Definition mop_alphabet3 : list mop := [MReg 0; MReg 1; MReg 2; MLapse; MTickAll; MStop 0; MStop 1; MStop 2].
+Fixpoint seqs3 (n : nat) : list (list mop) :=
+  match n with
+  | O => [[]]
+  | S k => flat_map (fun t => map (fun m => m :: t) mop_alphabet3) (seqs3 k)
+  end.
+Definition schedules3 (n : nat) : list (list mop) := flat_map seqs3 (seq 0 (S n)).
+Definition e_start3 : esys := run_skip estep esys_init (map GNew [1; 1; 1]).
+
+Lemma ok_sound_on_etcd_loops_bounded3 :
+  forallb (fun ops => negb (ew_legal (e_start3, None) ops) || ok_on_model BEtcdW [1; 1; 1] ops) (schedules3 4) = true /\
+  forallb (fun ops => negb (er_legal WRun e_obs2 (e_start3, None) ops) || ok_on_model BEtcdR [1; 1; 1] ops) (schedules3 4) = true /\
+  forallb (fun ops => negb (er_legal WService e_obs2 (e_start3, None) ops) || ok_on_model BEtcdS [1; 1; 1] ops) (schedules3 4) = true.
+Proof. repeat split; vm_compute; reflexivity. Qed.
